@@ -69,7 +69,19 @@ func hC14Pool() {
 	unaryKind := cfg.kind == fkUnary
 	targetEnveloped := target == ProtocolGRPC || target == ProtocolGRPCWeb || (target == ProtocolConnect && !unaryKind)
 	p.backend.closeBody = verifChoose("handlerClosesBody", 2) == 1
-	scenario := verifChoose("scenario", 6)
+	scenario := verifChoose("scenario", 8)
+	if scenario == 7 {
+		// (see case 7 below) needs a streaming client whose compressed JSON messages are re-encoded
+		if !clientEnveloped(cfg.client) || cfg.kind != fkBidi {
+			return
+		}
+		cfg.clientCodec, cfg.svcCodecs, cfg.clientComp = CodecJSON, []string{CodecProto}, true
+		p = newPipe(cfg)
+		if !p.buildOK {
+			return
+		}
+		p.backend.closeBody = false
+	}
 	reqMsgs := []wireMsg{{abstract: nondetBytes("req", 1), compressed: cfg.clientComp}}
 	p.backend.script = &respScript{msgs: []wireMsg{{abstract: nondetBytes("resp", 1)}}}
 	p.req = buildClientRequest(cfg, reqMsgs, p.body)
@@ -92,6 +104,47 @@ func hC14Pool() {
 		} else {
 			p.body.data = []byte{9, 9}
 		}
+	case 7: // second message of a stream decompresses but does not decode; the handler reads again after the error
+		p.body.data = appendFrame(p.body.data[:0], 1, refToyCompress(refToyEncode(true, []byte{'a'})))
+		p.body.data = appendFrame(p.body.data, 1, refToyCompress([]byte("xx")))
+		afterError := -1
+		p.tr.methods[pipePath].handler = http.HandlerFunc(func(w http.ResponseWriter, r *http.Request) {
+			buf := make([]byte, 64)
+			var err error
+			for i := 0; i < 50 && err == nil; i++ {
+				_, err = r.Body.Read(buf)
+			}
+			// meanwhile another RPC is handed what is in the pool and fills it
+			for i := 0; i < 4; i++ {
+				x := p.tr.bufferPool.Pool.Get()
+				if x == nil {
+					break
+				}
+				b := x.(*bytes.Buffer)
+				b.Reset()
+				b.WriteString("SOMEONE-ELSES-DATA")
+			}
+			afterError, _ = r.Body.Read(buf)
+		})
+		defer func() {
+			verifObsInt("bytes-read-after-error", int64(afterError))
+			verifAssert(afterError <= 0, "C14: after a request body reported an error, further reads hand out nothing (no pooled buffer is read)")
+		}()
+	case 6: // a backend without envelopes writes a complete message and then more data that exceeds the limit
+		if targetEnveloped {
+			return
+		}
+		whole := encodeMsg(p.backend.codec, wireMsg{abstract: []byte{'w'}})
+		p.tr.methods[pipePath].handler = http.HandlerFunc(func(w http.ResponseWriter, r *http.Request) {
+			readAllSized(r.Body, 4, 100)
+			if p.backend.closeBody {
+				r.Body.Close()
+			}
+			w.Header().Set("Content-Type", p.backendContentType())
+			w.Write(whole)
+			w.Write(bytes.Repeat([]byte{'z'}, 70))
+			p.backend.at(3)
+		})
 	default: // backend writes a malformed frame and then more data
 		p.tr.methods[pipePath].handler = http.HandlerFunc(func(w http.ResponseWriter, r *http.Request) {
 			readAllSized(r.Body, 4, 100)
@@ -100,11 +153,34 @@ func hC14Pool() {
 			w.Write([]byte{0, 0, 0, 0, 0})
 		})
 	}
+	// "another RPC" takes every buffer that is in the pool when the handler is about to return and keeps it:
+	// whatever the transcoder released by then must not be touched by it any more
+	var taken []*bytes.Buffer
+	p.backend.hook = func(point int) {
+		if point != 3 {
+			return
+		}
+		for i := 0; i < 4; i++ {
+			x := p.tr.bufferPool.Pool.Get()
+			if x == nil {
+				break
+			}
+			b := x.(*bytes.Buffer)
+			b.Reset()
+			b.WriteString("MARK")
+			taken = append(taken, b)
+		}
+	}
 	func() {
 		defer func() { recover() }()
 		p.tr.ServeHTTP(p.sink, p.req)
 	}()
 	verifReach("served")
+	for _, b := range taken {
+		verifObsStr("taken-buffer", b.String())
+		verifAssert(b.String() == "MARK", "C14: a buffer released to the pool is not written by its previous owner any more")
+	}
+	p.backend.hook = nil
 	verifAssert(poolsSound(p.tr), "C14: no pooled object is owned twice after the RPC")
 
 	// a follow-up RPC on the same transcoder behaves like on a fresh one
@@ -178,10 +254,19 @@ func hC14Nested() {
 	bFails := verifChoose("bFails", 2) == 1
 	at := verifChoose("interleaveAt", 4)
 
+	// thorough: RPC B may use another client form than RPC A (mixed protocols on one Transcoder)
+	cfgB := *cfg
+	if verifTier() == 1 {
+		alts := []int{cfGRPC, cfGRPCWeb, cfConnectStream}
+		if cfg.kind == fkUnary {
+			alts = append(alts, cfConnectUnary)
+		}
+		cfgB.client = alts[verifChoose("clientB", len(alts))]
+	}
 	buildB := func(body *fakeBody) *http.Request {
-		req := buildClientRequest(cfg, msgsB, body)
+		req := buildClientRequest(&cfgB, msgsB, body)
 		if bFails {
-			if clientEnveloped(cfg.client) {
+			if clientEnveloped(cfgB.client) {
 				body.data = appendFrame(nil, 1, []byte{9, 9})
 			} else {
 				body.data = []byte{9, 9}
